@@ -25,6 +25,7 @@ struct C02Script {
     max_outstanding: usize,
     slow_permille: u64,
     noreply_permille: u64,
+    big_permille: u64,
     /// Markers of requests the server has decided never to answer.
     held: u64,
     /// Exhaustion mode: (conn, stream, marker) of requests awaiting release.
@@ -63,6 +64,22 @@ impl Script for C02Script {
         }
         let _ = self.noreply_permille;
         Reply::Default
+    }
+    /// Some answers are big (> 64 KiB frame, through server warnings) so that reading a
+    /// large body with other responses queued right behind it is exercised.
+    fn envelope_for(&mut self, w: &mut World, rq: &ReqInfo, req: &Request) -> crate::wire::Envelope {
+        let mut env = crate::wire::Envelope::default();
+        if self.big_permille > 0
+            && rq.marker.map(|m| m & F_HOLDALL == 0).unwrap_or(false)
+            && !matches!(req, Request::Prepare { .. })
+            && tape::chance("c02:big", self.big_permille, 1000)
+        {
+            let n = tape::range("c02:big_parts", 2, 4) as usize;
+            let len = tape::range("c02:big_len", 20_000, 60_000) as usize;
+            env.warnings = (0..n).map(|k| "w".repeat(len + k)).collect();
+            w.probe("big_response");
+        }
+        env
     }
     fn as_any(&mut self) -> &mut dyn Any {
         self
@@ -125,6 +142,7 @@ async fn main(plan: Plan, slow_permille: u64) -> Outcome {
             max_outstanding: 0,
             slow_permille,
             noreply_permille: 0,
+            big_permille: [0, 0, 50, 300][tape::choose("c02:big_rate", 4) as usize],
             held: 0,
             parked: Vec::new(),
         }));
